@@ -73,22 +73,21 @@ func Ask(ctx context.Context, to *PID, message any, timeout time.Duration) (resp
 	select {
 	case response = <-responseCh:
 		timers.Put(timer)
-		receiveContext.responseClosed.Store(true)
 		putResponseChannel(responseCh)
 		return
 	case <-ctx.Done():
 		err = errors.Join(ctx.Err(), gerrors.ErrRequestTimeout)
 		to.handleReceivedErrorWithMessage(noSender, message, err)
 		timers.Put(timer)
-		receiveContext.responseClosed.Store(true)
-		putResponseChannel(responseCh)
+		// The receiver may still be about to reply (it owns the context and
+		// the channel until it has responded), so the channel is left to the
+		// GC instead of being pooled, and the context, which the mailbox
+		// recycles, is not touched after doReceive.
 		return nil, err
 	case <-timer.C:
 		err = gerrors.ErrRequestTimeout
 		to.handleReceivedErrorWithMessage(noSender, message, err)
 		timers.Put(timer)
-		receiveContext.responseClosed.Store(true)
-		putResponseChannel(responseCh)
 		return
 	}
 }
